@@ -71,6 +71,15 @@ class RecFrame:
 
     def log_write(self, ex, st, ref, new):
         g = t_and(*st.pc[self.pc_len:])
+        # a write below a cell this iteration already assigned: fold it into that assignment
+        for e in self.effects:
+            if e.kind == "set" and e.root == ref.root and not e.binders and len(e.path) < len(ref.path) \
+                    and ex.same_path(e.path, ref.path[: len(e.path)]):
+                e2 = Effect("set", e.root, e.path, ex.resolve(st, VRef(e.root, e.path)), e.guard if g.eq(e.guard) else t_and(e.guard), (), where=e.where)
+                if not g.eq(e.guard):
+                    break  # written under a different condition: keep as a separate effect
+                self.effects[self.effects.index(e)] = e2
+                return
         val = new
         if isinstance(val, VRef) and val.root not in getattr(self, "before", ()):
             # objects created inside the iteration are recorded by value
@@ -757,6 +766,15 @@ class Interp(Exec):
                     cur = self.v_ite(indom, subst(h.val, [(h.binder, kt)]), self.default_h(h))
                     self.write(st, ref, cur if not isinstance(cur, H) else self.alloc(st, cur))
                 return self.load(st, ref)
+            if isinstance(h, HPyDict) and not pyconst(idx)[0] and h.items and h.default is None:
+                # symbolic key into a concrete dict: if-then-else chain over the entries
+                eqs = [self.eq(st, k, idx) for k, _ in h.items]
+                self.oblige(st, "keyerror", t_or(*eqs), where=self.where(node, st))
+                vals = [self.load(st, VRef(obj.root, obj.path + (("k", k),))) for k, _ in h.items]
+                cur = vals[-1]
+                for e, v in zip(reversed(eqs[:-1]), reversed(vals[:-1])):
+                    cur = self.v_ite(e, v, cur)
+                return cur
             if isinstance(h, HPyDict):
                 for k, v in h.items:
                     if self.const_eq(k, idx):
